@@ -173,3 +173,6 @@ Example api_version_examples :
   is_api_version "config.kubernetes.io/index" = false /\ is_api_version "x.io/v1thing" = false /\
   is_api_version "x.io/v" = false /\ is_api_version "x.io/v2alpha" = false.
 Proof. vm_compute. repeat split. Qed.
+
+Lemma gen_plugin_protocol_removed : plugin_protocol_removed_b = true.
+Proof. vm_compute. reflexivity. Qed.
